@@ -5,55 +5,62 @@ namespace KinModel.Middleware
 /-! ### client basics -/
 
 theorem validCode_200 : validCode 200 = true := by decide
+theorem isInfo_200 : isInfo 200 = false := by decide
 
-/-- status/body/panic part of a client state (everything but the header maps and the flush flag) -/
+/-- transport, status, informational responses, body and panic of a client state (everything but the header
+maps and the flush flag) -/
 def Core (c1 c2 : Client) : Prop :=
-  c1.status = c2.status ∧ c1.body = c2.body ∧ c1.panicked = c2.panicked
+  c1.server = c2.server ∧ c1.status = c2.status ∧ c1.info = c2.info ∧ c1.body = c2.body ∧ c1.panicked = c2.panicked
 
-theorem Core.refl (c : Client) : Core c c := ⟨rfl, rfl, rfl⟩
+theorem Core.refl (c : Client) : Core c c := ⟨rfl, rfl, rfl, rfl, rfl⟩
 
 theorem Core.seen {c1 c2 : Client} (h : Core c1 c2) : c1.seen = c2.seen := by
-  obtain ⟨h1, h2, _⟩ := h
+  obtain ⟨_, h1, _, h2, _⟩ := h
   simp [Client.seen, h1, h2]
 
 theorem core_writeHeader {c1 c2 : Client} (h : Core c1 c2) (n : Nat) :
     Core (c1.writeHeader n) (c2.writeHeader n) := by
-  obtain ⟨h1, h2, h3⟩ := h
+  obtain ⟨h0, h1, hi, h2, h3⟩ := h
   unfold Client.writeHeader
-  rw [h3, h1]
-  cases c2.panicked <;> cases c2.status <;> cases validCode n <;> simp [Core, h1, h2, h3]
+  rw [h3, h1, h0]
+  cases c2.panicked <;> cases c2.status <;> cases validCode n <;> cases c2.server <;> cases isInfo n <;>
+    simp [Core, h0, h1, hi, h2, h3]
 
 theorem core_write {c1 c2 : Client} (h : Core c1 c2) (bs : Bytes) : Core (c1.write bs) (c2.write bs) := by
   have hw := core_writeHeader h 200
-  obtain ⟨h1, h2, h3⟩ := h
-  obtain ⟨g1, g2, g3⟩ := hw
+  obtain ⟨h0, h1, hi, h2, h3⟩ := h
+  obtain ⟨g0, g1, gi, g2, g3⟩ := hw
   unfold Client.write
   rw [h3]
   cases c2.panicked
-  · simp [Core, g1, g2, g3]
-  · simp [Core, h1, h2, h3]
+  · simp [Core, g0, g1, gi, g2, g3]
+  · simp [Core, h0, h1, hi, h2, h3]
 
 theorem core_flush {c1 c2 : Client} (h : Core c1 c2) : Core c1.flush c2.flush := by
   have hw := core_writeHeader h 200
-  obtain ⟨h1, h2, h3⟩ := h
-  obtain ⟨g1, g2, g3⟩ := hw
+  obtain ⟨h0, h1, hi, h2, h3⟩ := h
+  obtain ⟨g0, g1, gi, g2, g3⟩ := hw
   unfold Client.flush
   rw [h3]
   cases c2.panicked
-  · simp [Core, g1, g2, g3]
-  · simp [Core, h1, h2, h3]
+  · simp [Core, g0, g1, gi, g2, g3]
+  · simp [Core, h0, h1, hi, h2, h3]
 
 theorem core_setHdr {c1 c2 : Client} (h : Core c1 c2) (k v : String) : Core (c1.setHdr k v) (c2.setHdr k v) := by
-  obtain ⟨h1, h2, h3⟩ := h
+  obtain ⟨h0, h1, hi, h2, h3⟩ := h
   unfold Client.setHdr
   rw [h3]
-  cases c2.panicked <;> simp [Core, h1, h2, h3]
+  cases c2.panicked <;> simp [Core, h0, h1, hi, h2, h3]
 
 theorem core_delHdr {c1 c2 : Client} (h : Core c1 c2) (k : String) : Core (c1.delHdr k) (c2.delHdr k) := by
-  obtain ⟨h1, h2, h3⟩ := h
+  obtain ⟨h0, h1, hi, h2, h3⟩ := h
   unfold Client.delHdr
   rw [h3]
-  cases c2.panicked <;> simp [Core, h1, h2, h3]
+  cases c2.panicked <;> simp [Core, h0, h1, hi, h2, h3]
+
+theorem core_abort {c1 c2 : Client} (h : Core c1 c2) : Core c1.abort c2.abort := by
+  obtain ⟨h0, h1, hi, h2, _⟩ := h
+  simp [Core, Client.abort, h0, h1, hi, h2]
 
 theorem core_direct {c1 c2 : Client} (h : Core c1 c2) (op : Op) : Core (direct c1 op) (direct c2 op) := by
   cases op with
@@ -62,6 +69,7 @@ theorem core_direct {c1 c2 : Client} (h : Core c1 c2) (op : Op) : Core (direct c
   | writeHeader n => exact core_writeHeader h n
   | write bs => exact core_write h bs
   | flush => exact core_flush h
+  | panic => exact core_abort h
 
 /-- status, body and panic of a run do not depend on the header maps / flush flag it starts from -/
 theorem core_runDirect {c1 c2 : Client} (h : Core c1 c2) (ops : List Op) :
@@ -70,29 +78,84 @@ theorem core_runDirect {c1 c2 : Client} (h : Core c1 c2) (ops : List Op) :
   | nil => exact h
   | cons op ops ih => exact ih (core_direct h op)
 
-theorem core_hdrStep (c : Client) (op : Op) : Core (hdrStep c op) c ∧ (hdrStep c op).sent = c.sent ∧
-    (hdrStep c op).flushed = c.flushed := by
-  cases op <;> simp [hdrStep, Client.setHdr, Client.delHdr, Core] <;> split <;> simp
+/-- header-map calls (and a panic) leave transport, status, informational responses, body, header snapshot and
+flush flag alone; `panicked` can only be raised -/
+theorem hdrStep_frame (c : Client) (op : Op) :
+    (hdrStep c op).server = c.server ∧ (hdrStep c op).status = c.status ∧ (hdrStep c op).info = c.info ∧
+    (hdrStep c op).body = c.body ∧ (hdrStep c op).sent = c.sent ∧ (hdrStep c op).flushed = c.flushed ∧
+    ((hdrStep c op).panicked = c.panicked ∨ op = .panic) := by
+  cases op <;> simp [hdrStep, Client.setHdr, Client.delHdr, Client.abort] <;> split <;> simp
 
-theorem core_foldl_hdrStep (c : Client) (ops : List Op) :
-    Core (ops.foldl hdrStep c) c ∧ (ops.foldl hdrStep c).sent = c.sent ∧ (ops.foldl hdrStep c).flushed = c.flushed := by
+theorem foldl_hdrStep_frame (c : Client) (ops : List Op) :
+    (ops.foldl hdrStep c).server = c.server ∧ (ops.foldl hdrStep c).status = c.status ∧
+    (ops.foldl hdrStep c).info = c.info ∧ (ops.foldl hdrStep c).body = c.body ∧
+    (ops.foldl hdrStep c).sent = c.sent ∧ (ops.foldl hdrStep c).flushed = c.flushed := by
   induction ops generalizing c with
-  | nil => exact ⟨Core.refl c, rfl, rfl⟩
+  | nil => simp
   | cons op ops ih =>
-    obtain ⟨⟨a1, a2, a3⟩, a4, a5⟩ := ih (hdrStep c op)
-    obtain ⟨⟨b1, b2, b3⟩, b4, b5⟩ := core_hdrStep c op
+    obtain ⟨a0, a1, a2, a3, a4, a5⟩ := ih (hdrStep c op)
+    obtain ⟨b0, b1, b2, b3, b4, b5, _⟩ := hdrStep_frame c op
     simp only [List.foldl_cons]
-    exact ⟨⟨a1.trans b1, a2.trans b2, a3.trans b3⟩, a4.trans b4, a5.trans b5⟩
+    exact ⟨a0.trans b0, a1.trans b1, a2.trans b2, a3.trans b3, a4.trans b4, a5.trans b5⟩
+
+theorem hdrStep_panicked_mono (c : Client) (op : Op) (h : c.panicked = true) : (hdrStep c op).panicked = true := by
+  cases op <;> simp [hdrStep, Client.setHdr, Client.delHdr, Client.abort, h]
+
+theorem foldl_hdrStep_panicked_mono (c : Client) (ops : List Op) (h : c.panicked = true) :
+    (ops.foldl hdrStep c).panicked = true := by
+  induction ops generalizing c with
+  | nil => exact h
+  | cons op ops ih => exact ih _ (hdrStep_panicked_mono c op h)
+
+/-- the header-only run panics exactly when the handler does (or the writer was dead before) -/
+theorem foldl_hdrStep_panicked (c : Client) (ops : List Op) :
+    (ops.foldl hdrStep c).panicked = (c.panicked || panics ops) := by
+  induction ops generalizing c with
+  | nil => simp [panics]
+  | cons op ops ih =>
+    simp only [List.foldl_cons]
+    rw [ih]
+    cases op <;> cases hp : c.panicked <;>
+      simp [hdrStep, Client.setHdr, Client.delHdr, Client.abort, panics, hp]
+
+theorem panics_false_iff (ops : List Op) : panics ops = false ↔ NoPanic ops := by
+  simp [panics, NoPanic]
+
+/-- without a handler panic the header-only run is `Core`-equal to where it started -/
+theorem core_foldl_hdrStep (c : Client) (ops : List Op) (hn : NoPanic ops) :
+    Core (ops.foldl hdrStep c) c ∧ (ops.foldl hdrStep c).sent = c.sent ∧ (ops.foldl hdrStep c).flushed = c.flushed := by
+  obtain ⟨a0, a1, a2, a3, a4, a5⟩ := foldl_hdrStep_frame c ops
+  have hp := foldl_hdrStep_panicked c ops
+  rw [(panics_false_iff ops).mpr hn] at hp
+  exact ⟨⟨a0, a1, a2, a3, by simpa using hp⟩, a4, a5⟩
 
 /-! ### direct runs never panic on valid codes -/
 
 theorem writeHeader_panicked (c : Client) (n : Nat) (hv : validCode n = true) :
     (c.writeHeader n).panicked = c.panicked := by
   unfold Client.writeHeader
-  cases hp : c.panicked <;> cases c.status <;> simp [hv, hp]
+  cases hp : c.panicked <;> cases c.status <;> cases c.server <;> cases isInfo n <;> simp [hv, hp]
 
-theorem direct_panicked (c : Client) (op : Op) (hv : ∀ n, op = .writeHeader n → validCode n = true) :
-    (direct c op).panicked = c.panicked := by
+theorem writeHeader_server (c : Client) (n : Nat) : (c.writeHeader n).server = c.server := by
+  unfold Client.writeHeader
+  cases c.panicked <;> cases c.status <;> cases validCode n <;> cases hs : c.server <;> cases isInfo n <;> simp [hs]
+
+theorem direct_server (c : Client) (op : Op) : (direct c op).server = c.server := by
+  cases op with
+  | setHdr k v => simp [direct, Client.setHdr]; split <;> simp
+  | delHdr k => simp [direct, Client.delHdr]; split <;> simp
+  | writeHeader n => exact writeHeader_server c n
+  | write bs => simp only [direct, Client.write]; split <;> simp [writeHeader_server]
+  | flush => simp only [direct, Client.flush]; split <;> simp [writeHeader_server]
+  | panic => simp [direct, Client.abort]
+
+theorem runDirect_server (c : Client) (ops : List Op) : (runDirect c ops).server = c.server := by
+  induction ops generalizing c with
+  | nil => rfl
+  | cons op ops ih => simp only [runDirect, List.foldl_cons] at *; rw [ih, direct_server]
+
+theorem direct_panicked (c : Client) (op : Op) (hv : ∀ n, op = .writeHeader n → validCode n = true)
+    (hn : op ≠ .panic) : (direct c op).panicked = c.panicked := by
   cases op with
   | setHdr k v => simp [direct, Client.setHdr]; split <;> simp_all
   | delHdr k => simp [direct, Client.delHdr]; split <;> simp_all
@@ -107,16 +170,18 @@ theorem direct_panicked (c : Client) (op : Op) (hv : ∀ n, op = .writeHeader n 
     split
     · rfl
     · simp [writeHeader_panicked c 200 validCode_200]
+  | panic => exact absurd rfl hn
 
-theorem runDirect_panicked (c : Client) (ops : List Op) (hv : ValidCodes ops) :
+theorem runDirect_panicked (c : Client) (ops : List Op) (hv : ValidCodes ops) (hn : NoPanic ops) :
     (runDirect c ops).panicked = c.panicked := by
   induction ops generalizing c with
   | nil => rfl
   | cons op ops ih =>
-    have h1 : ValidCodes ops := fun n hn => hv n (List.mem_cons_of_mem _ hn)
-    have h2 := direct_panicked c op (fun n hn => hv n (by simp [hn]))
+    have h1 : ValidCodes ops := fun n hm => hv n (List.mem_cons_of_mem _ hm)
+    have hn1 : NoPanic ops := fun hm => hn (List.mem_cons_of_mem _ hm)
+    have h2 := direct_panicked c op (fun n hm => hv n (by simp [hm])) (fun he => hn (by simp [he]))
     simp only [runDirect, List.foldl_cons] at *
-    rw [ih _ h1, h2]
+    rw [ih _ h1 hn1, h2]
 
 theorem validCodesB_iff (ops : List Op) : validCodesB ops = true ↔ ValidCodes ops := by
   unfold validCodesB ValidCodes
@@ -142,54 +207,60 @@ theorem strict_run_eq (w : Strict) (ops : List Op) :
     simp only [Strict.run, List.foldl_cons] at *
     rw [ih]
     cases op <;> cases hw : w.headerWritten <;>
-      simp [Strict.step, hw, wroteStatus, firstStatus, written, hdrStep]
+      simp [Strict.step, hw, wroteStatus, firstStatus, written, hdrStep, isInfo]
 
-/-! ### direct run: closed form of status and body (valid codes, no panic so far) -/
+/-! ### direct run: closed form of status and body (valid codes, no panic) -/
 
 theorem direct_status_body (c : Client) (op : Op) (hp : c.panicked = false)
     (hv : ∀ n, op = .writeHeader n → validCode n = true) :
-    (direct c op).status = (match c.status with | some s => some s | none => firstStatus true [op]) ∧
+    (direct c op).status = (match c.status with | some s => some s | none => firstStatus c.server true [op]) ∧
     (direct c op).body = c.body ++ written [op] := by
   cases op with
   | setHdr k v => cases hs : c.status <;> simp [direct, Client.setHdr, hp, hs, firstStatus, written]
   | delHdr k => cases hs : c.status <;> simp [direct, Client.delHdr, hp, hs, firstStatus, written]
   | writeHeader n =>
     have := hv n rfl
-    cases hs : c.status <;> simp [direct, Client.writeHeader, hp, hs, firstStatus, written, this]
+    cases hs : c.status <;> cases hsv : c.server <;> cases hi : isInfo n <;>
+      simp [direct, Client.writeHeader, hp, hs, hsv, hi, firstStatus, written, this]
   | write bs =>
-    cases hs : c.status <;>
-      simp [direct, Client.write, Client.writeHeader, hp, hs, firstStatus, written, validCode_200]
+    cases hs : c.status <;> cases hsv : c.server <;>
+      simp [direct, Client.write, Client.writeHeader, hp, hs, hsv, firstStatus, written, validCode_200, isInfo_200]
   | flush =>
-    cases hs : c.status <;>
-      simp [direct, Client.flush, Client.writeHeader, hp, hs, firstStatus, written, validCode_200]
+    cases hs : c.status <;> cases hsv : c.server <;>
+      simp [direct, Client.flush, Client.writeHeader, hp, hs, hsv, firstStatus, written, validCode_200, isInfo_200]
+  | panic => cases hs : c.status <;> simp [direct, Client.abort, hs, firstStatus, written]
 
-theorem firstStatus_cons (b : Bool) (op : Op) (ops : List Op) :
-    firstStatus b (op :: ops) = (match firstStatus b [op] with | some s => some s | none => firstStatus b ops) := by
+theorem firstStatus_cons (s b : Bool) (op : Op) (ops : List Op) :
+    firstStatus s b (op :: ops) = (match firstStatus s b [op] with | some x => some x | none => firstStatus s b ops) := by
   cases op <;> cases b <;> simp [firstStatus]
+  all_goals (split <;> simp)
 
 theorem written_cons (op : Op) (ops : List Op) : written (op :: ops) = written [op] ++ written ops := by
   cases op <;> simp [written]
 
-theorem runDirect_status_body (c : Client) (ops : List Op) (hp : c.panicked = false) (hv : ValidCodes ops) :
-    (runDirect c ops).status = (match c.status with | some s => some s | none => firstStatus true ops) ∧
+theorem runDirect_status_body (c : Client) (ops : List Op) (hp : c.panicked = false) (hv : ValidCodes ops)
+    (hn : NoPanic ops) :
+    (runDirect c ops).status = (match c.status with | some s => some s | none => firstStatus c.server true ops) ∧
     (runDirect c ops).body = c.body ++ written ops := by
   induction ops generalizing c with
   | nil => cases hs : c.status <;> simp [runDirect, firstStatus, written, hs]
   | cons op ops ih =>
-    have h1 : ValidCodes ops := fun n hn => hv n (List.mem_cons_of_mem _ hn)
-    have hop : ∀ n, op = .writeHeader n → validCode n = true := fun n hn => hv n (by simp [hn])
-    have hp' : (direct c op).panicked = false := by rw [direct_panicked c op hop]; exact hp
+    have h1 : ValidCodes ops := fun n hm => hv n (List.mem_cons_of_mem _ hm)
+    have hn1 : NoPanic ops := fun hm => hn (List.mem_cons_of_mem _ hm)
+    have hop : ∀ n, op = .writeHeader n → validCode n = true := fun n hm => hv n (by simp [hm])
+    have hp' : (direct c op).panicked = false := by
+      rw [direct_panicked c op hop (fun he => hn (by simp [he]))]; exact hp
     obtain ⟨s1, b1⟩ := direct_status_body c op hp hop
-    obtain ⟨s2, b2⟩ := ih (direct c op) hp' h1
+    obtain ⟨s2, b2⟩ := ih (direct c op) hp' h1 hn1
     simp only [runDirect, List.foldl_cons] at *
-    rw [s2, b2, s1, b1, firstStatus_cons true op ops, written_cons op ops]
+    rw [s2, b2, s1, b1, direct_server, firstStatus_cons c.server true op ops, written_cons op ops]
     constructor
-    · cases c.status <;> cases firstStatus true [op] <;> simp
+    · cases c.status <;> cases firstStatus c.server true [op] <;> simp
     · simp [List.append_assoc]
 
 /-- without Flush calls the two readings of "first status" coincide -/
-theorem firstStatus_noflush (ops : List Op) (h : ∀ op ∈ ops, op ≠ Op.flush) :
-    firstStatus true ops = firstStatus false ops := by
+theorem firstStatus_noflush (s : Bool) (ops : List Op) (h : ∀ op ∈ ops, op ≠ Op.flush) :
+    firstStatus s true ops = firstStatus s false ops := by
   induction ops with
   | nil => rfl
   | cons op ops ih =>
@@ -198,29 +269,81 @@ theorem firstStatus_noflush (ops : List Op) (h : ∀ op ∈ ops, op ≠ Op.flush
     | flush => exact absurd rfl (h .flush (by simp))
     | _ => simp [firstStatus, h1]
 
-theorem firstStatus_valid (b : Bool) (ops : List Op) (hv : ValidCodes ops) (n : Nat)
-    (h : firstStatus b ops = some n) : validCode n = true := by
+theorem informational_cons (s : Bool) (op : Op) (ops : List Op) (h : informational s (op :: ops) = false) :
+    (s && opInfo op) = false ∧ informational s ops = false := by
+  cases s <;> simp_all [informational]
+
+/-- outside the exclusion class F-C14-2 the transport does not matter for the status the handler fixed -/
+theorem firstStatus_noinfo (s b : Bool) (ops : List Op) (h : informational s ops = false) :
+    firstStatus s b ops = firstStatus false b ops := by
+  induction ops with
+  | nil => rfl
+  | cons op ops ih =>
+    obtain ⟨h1, h2⟩ := informational_cons s op ops h
+    have ih' := ih h2
+    cases op with
+    | writeHeader n => simp only [opInfo] at h1; simp [firstStatus, h1]
+    | flush => cases b <;> simp [firstStatus, ih']
+    | _ => simp [firstStatus, ih']
+
+theorem firstStatus_valid (s b : Bool) (ops : List Op) (hv : ValidCodes ops) (n : Nat)
+    (h : firstStatus s b ops = some n) : validCode n = true := by
   induction ops with
   | nil => simp [firstStatus] at h
   | cons op ops ih =>
     have hv' : ValidCodes ops := fun m hm => hv m (List.mem_cons_of_mem _ hm)
     cases op with
     | writeHeader m =>
-      simp [firstStatus] at h
-      exact h ▸ hv m (by simp)
+      simp only [firstStatus] at h
+      split at h
+      · exact ih hv' h
+      · simp at h; exact h ▸ hv m (by simp)
     | write bs => simp [firstStatus] at h; exact h ▸ validCode_200
     | setHdr k v => simp [firstStatus] at h; exact ih hv' h
     | delHdr k => simp [firstStatus] at h; exact ih hv' h
+    | panic => simp [firstStatus] at h; exact ih hv' h
     | flush =>
       cases b
       · simp [firstStatus] at h; exact ih hv' h
       · simp [firstStatus] at h; exact h ▸ validCode_200
 
+/-- the recorded status is one of the handler's WriteHeader codes (or the 200 of a first Write) -/
+theorem wroteStatus_mem (ops : List Op) (n : Nat) (h : wroteStatus ops = some n) :
+    n = 200 ∨ Op.writeHeader n ∈ ops := by
+  unfold wroteStatus at h
+  induction ops with
+  | nil => simp [firstStatus] at h
+  | cons op ops ih =>
+    cases op with
+    | writeHeader m => simp [firstStatus] at h; right; simp [h]
+    | write bs => simp [firstStatus] at h; left; exact h.symm
+    | setHdr k v => simp [firstStatus] at h; rcases ih h with h1 | h1 <;> simp [h1]
+    | delHdr k => simp [firstStatus] at h; rcases ih h with h1 | h1 <;> simp [h1]
+    | panic => simp [firstStatus] at h; rcases ih h with h1 | h1 <;> simp [h1]
+    | flush => simp [firstStatus] at h; rcases ih h with h1 | h1 <;> simp [h1]
+
+theorem informational_mem (s : Bool) (ops : List Op) (op : Op) (hi : informational s ops = false) (hm : op ∈ ops) :
+    (s && opInfo op) = false := by
+  induction ops with
+  | nil => simp at hm
+  | cons o ops ih =>
+    obtain ⟨h1, h2⟩ := informational_cons s o ops hi
+    rcases List.mem_cons.mp hm with h | h
+    · subst h; exact h1
+    · exact ih h2 h
+
+/-- outside F-C14-2 the recorded status is not informational for the transport -/
+theorem wroteStatus_notInfo (s : Bool) (ops : List Op) (n : Nat) (hi : informational s ops = false)
+    (h : wroteStatus ops = some n) : (s && isInfo n) = false := by
+  rcases wroteStatus_mem ops n h with h1 | h1
+  · subst h1; simp [isInfo_200]
+  · exact informational_mem s ops _ hi h1
+
 /-- a handler that fixed no status wrote no byte -/
-theorem written_of_noStatus (ops : List Op) (h : firstStatus false ops = none) : written ops = [] := by
+theorem written_of_noStatus (ops : List Op) (h : firstStatus false false ops = none) : written ops = [] := by
   induction ops with
   | nil => rfl
-  | cons op ops ih => cases op <;> simp [firstStatus] at h <;> simp [written, ih h]
+  | cons op ops ih => cases op <;> simp [firstStatus, isInfo] at h <;> simp [written, ih h]
 
 /-! ### warn wrapper: refinement of the raw writer -/
 
@@ -228,30 +351,39 @@ theorem written_of_noStatus (ops : List Op) (h : firstStatus false ops = none) :
 def WInv (w : Warn) : Prop :=
   w.headerWritten = true → (w.client.status.isSome = true ∨ w.client.panicked = true)
 
-theorem warn_step (w : Warn) (op : Op) (h : WInv w) :
-    (w.step op).client = direct w.client op ∧ WInv (w.step op) := by
-  rcases w with ⟨hwr, st, buf, ⟨cs, cb, ch, csent, cf, cp⟩⟩
+theorem warn_step (w : Warn) (op : Op) (h : WInv w)
+    (hi : ∀ n, op = .writeHeader n → (w.client.server && isInfo n) = false) :
+    (w.step op).client = direct w.client op ∧ WInv (w.step op) ∧ (w.step op).client.server = w.client.server := by
+  rcases w with ⟨hwr, st, buf, ⟨csv, cs, ci, cb, ch, csent, cf, cp⟩⟩
   unfold WInv at *
   cases op with
   | setHdr k v => cases cp <;> simp_all [Warn.step, direct, Client.setHdr]
   | delHdr k => cases cp <;> simp_all [Warn.step, direct, Client.delHdr]
   | writeHeader n =>
-    cases hv : validCode n <;> cases hwr <;> cases cp <;> cases cs <;>
+    have hi' := hi n rfl
+    simp only at hi'
+    cases hv : validCode n <;> cases hwr <;> cases cp <;> cases cs <;> cases csv <;> cases hin : isInfo n <;>
       simp_all [Warn.step, Warn.writeHeader, direct, Client.writeHeader]
   | write bs =>
-    cases hwr <;> cases cp <;> cases cs <;>
-      simp_all [Warn.step, Warn.writeHeader, direct, Client.write, Client.writeHeader, validCode_200]
+    cases hwr <;> cases cp <;> cases cs <;> cases csv <;>
+      simp_all [Warn.step, Warn.writeHeader, direct, Client.write, Client.writeHeader, validCode_200, isInfo_200]
   | flush =>
-    cases hwr <;> cases cp <;> cases cs <;>
-      simp_all [Warn.step, direct, Client.flush, Client.writeHeader, validCode_200]
+    cases hwr <;> cases cp <;> cases cs <;> cases csv <;>
+      simp_all [Warn.step, direct, Client.flush, Client.writeHeader, validCode_200, isInfo_200]
+  | panic => cases hwr <;> simp_all [Warn.step, direct, Client.abort]
 
-theorem warn_run (w : Warn) (ops : List Op) (h : WInv w) :
+theorem warn_run (w : Warn) (ops : List Op) (h : WInv w) (hi : informational w.client.server ops = false) :
     (Warn.run w ops).client = runDirect w.client ops ∧ WInv (Warn.run w ops) := by
   induction ops generalizing w with
   | nil => exact ⟨rfl, h⟩
   | cons op ops ih =>
-    obtain ⟨h1, h2⟩ := warn_step w op h
-    obtain ⟨h3, h4⟩ := ih (w.step op) h2
+    obtain ⟨hi1, hrest⟩ := informational_cons _ op ops hi
+    have hop : ∀ n, op = .writeHeader n → (w.client.server && isInfo n) = false := by
+      intro n hn
+      subst hn
+      exact hi1
+    obtain ⟨h1, h2, h0⟩ := warn_step w op h hop
+    obtain ⟨h3, h4⟩ := ih (w.step op) h2 (by rw [h0]; exact hrest)
     simp only [Warn.run, runDirect, List.foldl_cons] at *
     rw [h3, h1]
     exact ⟨rfl, h4⟩
@@ -268,6 +400,48 @@ theorem warn_run_record (w : Warn) (ops : List Op) :
     simp only [Warn.run, List.foldl_cons] at *
     rw [a1, a2, a3]
     cases op <;> cases hw : w.headerWritten <;>
-      simp [Warn.step, Warn.writeHeader, hw, wroteStatus, firstStatus, written]
+      simp [Warn.step, Warn.writeHeader, hw, wroteStatus, firstStatus, written, isInfo]
+
+/-- the header map (and the panic flag) of a header-only run depends only on the header map and panic flag it
+starts from -/
+theorem hdr_foldl_hdrStep_indep (c1 c2 : Client) (ops : List Op) (hh : c1.hdr = c2.hdr) (hp : c1.panicked = c2.panicked) :
+    (ops.foldl hdrStep c1).hdr = (ops.foldl hdrStep c2).hdr := by
+  induction ops generalizing c1 c2 with
+  | nil => exact hh
+  | cons op ops ih =>
+    simp only [List.foldl_cons]
+    apply ih
+    · cases op <;> simp [hdrStep, Client.setHdr, Client.delHdr, Client.abort, hp, hh] <;> split <;> simp [hh]
+    · cases op <;> simp [hdrStep, Client.setHdr, Client.delHdr, Client.abort, hp] <;> split <;> simp_all
+
+theorem getLast?_getD_cons {α : Type} (x d : α) (l : List α) : ((x :: l).getLast?).getD d = (l.getLast?).getD x := by
+  cases l with
+  | nil => simp
+  | cons y ys =>
+    rw [List.getLast?_cons_cons]
+    cases h : (y :: ys).getLast? with
+    | none => simp at h
+    | some v => simp
+
+/-! ### request sequences -/
+
+/-- a history-free machine answers every request of a sequence as it would answer it alone, from any state -/
+theorem runSeq_of_historyFree {σ ρ ω : Type} (step : σ → ρ → σ × ω) (h : HistoryFree step) (s0 : σ) :
+    ∀ (s : σ) (rs : List ρ), runSeq step s rs = rs.map (fun r => (step s0 r).2) := by
+  intro s rs
+  induction rs generalizing s with
+  | nil => rfl
+  | cons r rs ih => simp only [runSeq, List.map_cons, ih]; rw [h s s0 r]
+
+theorem runSeq_length {σ ρ ω : Type} (step : σ → ρ → σ × ω) (s : σ) (rs : List ρ) :
+    (runSeq step s rs).length = rs.length := by
+  induction rs generalizing s with
+  | nil => rfl
+  | cons r rs ih => simp [runSeq, ih]
+
+theorem strict_run_append (w : Strict) (a b : List Op) : Strict.run w (a ++ b) = Strict.run (Strict.run w a) b := by
+  simp [Strict.run, List.foldl_append]
+
+theorem strict_run_cons (w : Strict) (op : Op) (ops : List Op) : Strict.run w (op :: ops) = Strict.run (w.step op) ops := rfl
 
 end KinModel.Middleware
